@@ -873,7 +873,12 @@ class Object(base.Symbolic, metaclass=ObjectMeta):
     old_parent = self.sym_parent
     super().sym_setparent(parent)
     if old_parent is not parent:
-      self._on_parent_change(old_parent, parent)
+      try:
+        self._on_parent_change(old_parent, parent)
+      except BaseException:
+        # The new parent is refused: the object stays where it was.
+        super().sym_setparent(old_parent)
+        raise
 
   def _sym_getattr(  # pytype: disable=signature-mismatch  # overriding-parameter-type-checks
       self, key: str) -> Any:
